@@ -66,8 +66,9 @@ def make_dict(cls, data):
     if hasattr(cls, "to_dict") and hasattr(cls, "meta"):
         return cls.to_dict(inst, use_integers_for_enums=True, including_default_value_fields=False) \
             if _supports(cls.to_dict, "including_default_value_fields") else cls.to_dict(inst, use_integers_for_enums=True)
-    from google.protobuf import json_format
-    return json_format.MessageToDict(inst, preserving_proto_field_name=True)
+    # a plain protobuf request class (request of another package) is built with `Cls(**request)`: the dict a caller writes holds
+    # native python values — the JSON mapping (64-bit integers as strings, bytes as base64) is not what a caller would pass
+    return make_native_dict(cls, data)
 
 
 def make_native_dict(cls, data):
